@@ -32,6 +32,23 @@ def other(name):
         c.add_inputs(['a'])
         c.emplace_gate('p', G.NOT, ('a',))
         c.set_outputs(['p', 'a'])
+    elif name == 'O5':  # buffer
+        c.add_inputs(['a'])
+        c.emplace_gate('i', G.IFF, ('a',))
+        c.set_outputs(['i'])
+    elif name == 'O6':  # GT
+        c.add_inputs(['a', 'b'])
+        c.emplace_gate('t', G.GT, ('a', 'b'))
+        c.set_outputs(['t'])
+    elif name == 'O7':  # two outputs
+        c.add_inputs(['a', 'b'])
+        c.emplace_gate('u', G.AND, ('a', 'b'))
+        c.emplace_gate('v', G.XOR, ('a', 'b'))
+        c.set_outputs(['u', 'v'])
+    elif name == 'O8':  # no inputs
+        c.emplace_gate('k', G.ALWAYS_TRUE, ())
+        c.emplace_gate('w', G.NOT, ('k',))
+        c.set_outputs(['w', 'k'])
     elif name == 'O4':  # with an internal block and a dead gate
         c.add_inputs(['a', 'b'])
         c.emplace_gate('q', G.GT, ('a', 'b'))
@@ -42,6 +59,14 @@ def other(name):
     else:
         raise KeyError(name)
     return c
+
+
+OTHER_OVERRIDE = {}
+
+
+def _oth(name):
+    """attached circuit instance for a call (a monitor may pin the instance to inspect it afterwards)"""
+    return OTHER_OVERRIDE.get(name) or other(name)
 
 
 def other_net(name):
@@ -115,17 +140,17 @@ def apply_op(c, op):
     elif k == 'replace_inputs':
         c.replace_inputs(list(op[1]), list(op[2]))
     elif k == 'connect_circuit':
-        c.connect_circuit(other(op[1]), list(op[2]), list(op[3]), right_connect=op[4], name=op[5], add_prefix=op[6])
+        c.connect_circuit(_oth(op[1]), list(op[2]), list(op[3]), right_connect=op[4], name=op[5], add_prefix=op[6])
     elif k == 'connect_left':
-        c.connect_left(other(op[1]), list(op[2]), name=op[3], add_prefix=op[4])
+        c.connect_left(_oth(op[1]), list(op[2]), name=op[3], add_prefix=op[4])
     elif k == 'connect_right':
-        c.connect_right(other(op[1]), list(op[2]), name=op[3], add_prefix=op[4])
+        c.connect_right(_oth(op[1]), list(op[2]), name=op[3], add_prefix=op[4])
     elif k == 'connect_inputs':
-        c.connect_inputs(other(op[1]), name=op[2], add_prefix=op[3])
+        c.connect_inputs(_oth(op[1]), name=op[2], add_prefix=op[3])
     elif k == 'extend_circuit':
-        c.extend_circuit(other(op[1]), right_connect=op[2], name=op[3], add_prefix=op[4])
+        c.extend_circuit(_oth(op[1]), right_connect=op[2], name=op[3], add_prefix=op[4])
     elif k == 'add_circuit':
-        c.add_circuit(other(op[1]), name=op[2], add_prefix=op[3])
+        c.add_circuit(_oth(op[1]), name=op[2], add_prefix=op[3])
     elif k == 'make_block':
         c.make_block(op[1], list(op[2]), list(op[3]), None if op[4] is None else list(op[4]))
     elif k == 'make_block_from_slice':
@@ -149,6 +174,9 @@ def apply_op(c, op):
 
 
 def replay(start_name, hist):
+    from vmc import boot
+
+    boot.uuid_counter.reset()  # fresh-label source restarts with every replay (determinism)
     c = start(start_name)
     for op in hist:
         c = apply_op(c, op)
